@@ -73,6 +73,21 @@ impl UnionExec {
         Self { inputs, schema }
     }
 
+    /// Hand the columns up under other names (same count, same types).
+    pub fn with_column_names(mut self, names: Vec<String>) -> Self {
+        if names.len() == self.schema.fields().len() {
+            let fields: Vec<arrow::datatypes::Field> = self
+                .schema
+                .fields()
+                .iter()
+                .zip(names)
+                .map(|(f, n)| f.as_ref().clone().with_name(n))
+                .collect();
+            self.schema = Arc::new(arrow::datatypes::Schema::new(fields));
+        }
+        self
+    }
+
     /// Every `(input, that input's local partition)` pair, in input order.
     ///
     /// Uses each input's own `output_partitions()`, so every local index handed
